@@ -454,13 +454,15 @@ impl Model {
 
     /// Logical view after a clean restart: with TTL on, generations already expired are dropped.
     pub fn reopen(&mut self) {
-        if self.cfg.ttl {
-            let now = self.now;
-            self.keys.retain(|_, g| !(g.expiry > 0 && now > g.expiry));
-        }
+        // every record recovery reads from the device counts as "recovered from disk" for its key,
+        // including a newest generation that recovery then drops because it has expired
         self.max_ts.clear();
         for (k, g) in &self.keys {
             self.max_ts.insert(k.clone(), g.ts);
+        }
+        if self.cfg.ttl {
+            let now = self.now;
+            self.keys.retain(|_, g| !(g.expiry > 0 && now > g.expiry));
         }
     }
 }
